@@ -82,14 +82,41 @@ def compile (ar : CellId → Option Nat) (params : List Val) : Expr → (Val →
         if vs.length = a then
           .call (c, vs) (fun r => match r with | .ok v => k v | .err e => h false e)
         else h true (.user kType)) h
-  | .readN r, k, _ => .read false r k
-  | .readA r, k, _ => .read true r k
+  | .readN r, k, h => .read false r (fun o => match o with
+    | some v => k v
+    | none => h true (.user kName))
+  | .readA r, k, h => .read true r (fun o => match o with
+    | some v => k v
+    | none => h true (.user kAttr))
   | .raise e, _, h => h true (.user e)
   | .try_ a c b, k, h => compile ar params a k (fun isNew e =>
       if c.catches e then compile ar params b k h else h isNew e)
 def compileArgs (ar : CellId → Option Nat) (params : List Val) : List Expr → (List Val → Prog) → (Bool → Err → Prog) → Prog
   | [], k, _ => k []
   | e :: es, k, h => compile ar params e (fun v => compileArgs ar params es (fun vs => k (v :: vs)) h) h
+end
+
+/-! Static scoping: a formula resolves global names in the namespace of its own space only.  A
+by-name read of a reference that is not visible there is a `NameError` whatever the reference
+holds. -/
+mutual
+def scopeExpr (visible : RefId → Bool) : Expr → Expr
+  | .lit i => .lit i
+  | .none => .none
+  | .param i => .param i
+  | .add a b => .add (scopeExpr visible a) (scopeExpr visible b)
+  | .sub a b => .sub (scopeExpr visible a) (scopeExpr visible b)
+  | .mul a b => .mul (scopeExpr visible a) (scopeExpr visible b)
+  | .lt a b => .lt (scopeExpr visible a) (scopeExpr visible b)
+  | .ite c a b => .ite (scopeExpr visible c) (scopeExpr visible a) (scopeExpr visible b)
+  | .call c args => .call c (scopeExprs visible args)
+  | .readN r => if visible r then .readN r else .raise kName
+  | .readA r => .readA r
+  | .raise k => .raise k
+  | .try_ a c b => .try_ (scopeExpr visible a) c (scopeExpr visible b)
+def scopeExprs (visible : RefId → Bool) : List Expr → List Expr
+  | [] => []
+  | e :: es => scopeExpr visible e :: scopeExprs visible es
 end
 
 /-- formula of a cells whose body is `e`, applied to the key (arity already checked) -/
